@@ -121,9 +121,14 @@ def _is_trunc_div(eng, D, st, R, T, q):
     if D.implies(st, T, "==") and D.implies(st, R, "=="):
         return True
     tk = eng.fm_bounds(st, T)
-    if k is not None and tk[0] == tk[1]:
-        quo = abs(tk[0]) // abs(k)
-        if (tk[0] < 0) != (k < 0):
+    kp = k
+    if kp is None and tk[0] == tk[1]:
+        qb = eng.fm_bounds(st, q)  # the divisor may be pinned by the path condition without being a literal (q == -NPC)
+        if qb[0] == qb[1]:
+            kp = int(qb[0])
+    if kp is not None and tk[0] == tk[1]:
+        quo = abs(tk[0]) // abs(kp)
+        if (tk[0] < 0) != (kp < 0):
             quo = -quo
         return D.implies(st, R - quo, "==")
     lo, hi = -(1 << 127), (1 << 127) - 1
@@ -199,7 +204,7 @@ def run(chk, F, tier):
     for tr, name, kind, op in forms:
         fn = F.find1(self_ty="Duration", name=name, trait_ref=tr)
         cnt += 1
-        ok, why = delegation_shape(F, fn, dur_ops[op], unit_mul, unit=(kind == "unit"), assign=name.endswith("_assign"))
+        ok, why = delegation_semantics(F, fn, dur_ops[op], unit_mul, unit=(kind == "unit"), assign=name.endswith("_assign"))
         chk.ob(rule, "<Duration as %s>::%s" % (tr.replace("timeunits::", ""), name), "delegates-to-Duration::%s" % op, ok,
                "E5 delegation", detail=why)
     chk.floor(rule, "Unit / assign forms", cnt, 6)
@@ -207,6 +212,52 @@ def run(chk, F, tier):
     chk.extra["paths_explored"] = eng.stats["paths"]
     chk.assumptions.append("Duration arguments satisfy the canonical-form invariant established by C02.R1")
     chk.assumptions.append("divisor != 0 (outside the quantifier)")
+
+
+def delegation_semantics(F, fn, op_fn, unit_mul, unit, assign):
+    """fn is `lhs (op) rhs` or `*self = *self (op) rhs` with rhs = arg or `arg * 1` (Unit x i64 with the constant 1), decided on the
+    interpreted paths with the Duration operator and Unit x i64 uninterpreted (recorded): through whatever chain of delegations
+    (`+= Unit` -> `+= Duration` -> `+`), exactly one application of the operator to (self, rhs) produces what is returned / stored."""
+    from .c20 import rec_hook, recs
+    eng, D = ctx(F)
+    eng.hooks_by_id = {op_fn["id"]: rec_hook(D, "op"), unit_mul["id"]: rec_hook(D, "unit*i64")}
+    try:
+        finals, args = D.run(fn)
+    finally:
+        eng.hooks_by_id = {}
+    nret = 0
+    for st in finals:
+        if st.end != "return":
+            return False, "a path ends in %s" % st.end
+        nret += 1
+        ops = recs(st, "op")
+        if len(ops) != 1:
+            return False, "expected exactly one application of %s on a path, found %d" % (op_fn["key"], len(ops))
+        (a0, a1), res = ops[0][0][:2], ops[0][1]
+        if assign:
+            ini = eng.sym_cells0.get(args[0].key) if hasattr(eng, "sym_cells0") else None
+            lhs_ok = a0 is ini or (D.total(a0) is not None and ini is not None and D.total(a0).key() == D.total(ini).key() and D.parts(a0)[1].key() == D.parts(ini)[1].key())
+            out = eng.deref(st, args[0])
+        else:
+            lhs_ok = a0 is args[0]
+            out = st.ret
+        if not lhs_ok:
+            return False, "left operand is not self"
+        if out is not res:
+            return False, "the operator's result is not what is %s" % ("stored to *self" if assign else "returned")
+        if unit:
+            ums = recs(st, "unit*i64")
+            if len(ums) != 1 or a1 is not ums[0][1]:
+                return False, "right operand is not one `unit * 1`"
+            u, k = ums[0][0][0], ums[0][0][1]
+            if u is not args[1]:
+                return False, "unit operand is not the argument"
+            if not (isinstance(k, Int) and k.lin.is_const() and k.lin.k == 1):
+                return False, "unit multiplied by %r, not 1" % (k,)
+        else:
+            if a1 is not args[1]:
+                return False, "right operand is not the argument"
+    return nret >= 1, None if nret >= 1 else "no return path"
 
 
 def delegation_shape(F, fn, op_fn, unit_mul, unit, assign):
